@@ -799,6 +799,70 @@ def gen_pipe(rng):
     return case
 
 
+CONV_ORDERS = [["n", "oh", "ow", "f", "kh", "kw", "c"],      # linalg conv_2d_nhwc_hwcf
+               ["n", "f", "oh", "ow", "c", "kh", "kw"],      # linalg conv_2d_nchw_fchw
+               ["n", "oh", "ow", "f", "c", "kh", "kw"],
+               ["oh", "n", "f", "ow", "kh", "c", "kw"]]
+
+
+def gen_conv(rng):
+    """conv-like / strided-window operations through the real front passes: dart.operation -> dart-scheduler ->
+    set-memory-layout (tiled and untiled, the COMPILER chooses the layouts) -> layout resolution -> conversion.  One operand
+    dimension is addressed by two loops (oh + kh, ow + kw) resp. with a stride (2*i): the layout pass has to keep every
+    access affine, which dart-layout-resolution silently relies on."""
+    if rng.random() < 0.12:
+        # strided window on an element-wise accelerator: a[s*i (+ j)]
+        variant = rng.choice(["alu", "xdma_add"])
+        unit = 4 if variant == "alu" else 16
+        n_out = unit * rng.choice([1, 2, 3])
+        st = rng.choice([2, 2, 3])
+        outer = rng.choice([1, 2, 3, 4])
+        case = {"kind": "pipe", "variant": variant, "ndims": 2, "sml": rng.choice(["true", "true", "false"]), "operands": []}
+        for i in range(3):
+            if i == 0:
+                case["operands"].append({"shape": [outer, st * n_out], "A": [[1, 0], [0, st]], "b": [0, 0], "layout": None})
+            else:
+                case["operands"].append({"shape": [outer, n_out], "A": [[1, 0], [0, 1]], "b": [0, 0], "layout": None})
+        return case
+    order = rng.choice(CONV_ORDERS)
+    KH = rng.choice([1, 2, 3, 3])
+    KW = rng.choice([1, 1, 2, 3])
+    OH = rng.choice([2, 3, 4, 4, 6])
+    if rng.random() < 0.5 and KH > 1:
+        # input extent divisible by the kernel size (a tile of KH fits exactly)
+        OH = rng.choice([x for x in (2, 3, 4, 5, 6, 7, 10) if (x + KH - 1) % KH == 0][:4])
+    OW = 8
+    F = rng.choice([8, 8, 16])
+    C = rng.choice([8, 16, 16])
+    size = {"n": 1, "oh": OH, "ow": OW, "f": F, "kh": KH, "kw": KW, "c": C}
+    while OH * OW * F * KH * KW * C > 26000 and KW > 1:
+        KW -= 1
+        size["kw"] = KW
+    while size["oh"] * OW * F * KH * KW * C > 26000 and size["oh"] > 2:
+        size["oh"] -= 1
+    OH = size["oh"]
+    pos = {d: k for k, d in enumerate(order)}
+
+    def row(*names):
+        r = [0] * 7
+        for nme in names:
+            r[pos[nme]] = 1
+        return r
+    ops = [{"shape": [1, OH + KH - 1, OW + KW - 1, C], "A": [row("n"), row("oh", "kh"), row("ow", "kw"), row("c")]},
+           {"shape": [KH, KW, C, F], "A": [row("kh"), row("kw"), row("c"), row("f")]},
+           {"shape": [1, OH, OW, F], "A": [row("n"), row("oh"), row("ow"), row("f")]}]
+    if rng.random() < 0.3:
+        # NCHW / FCHW operand order
+        ops = [{"shape": [1, C, OH + KH - 1, OW + KW - 1], "A": [row("n"), row("c"), row("oh", "kh"), row("ow", "kw")]},
+               {"shape": [F, C, KH, KW], "A": [row("f"), row("c"), row("kh"), row("kw")]},
+               {"shape": [1, F, OH, OW], "A": [row("n"), row("f"), row("oh"), row("ow")]}]
+    for o in ops:
+        o["b"] = [0] * len(o["shape"])
+        o["layout"] = None
+    return {"kind": "pipe", "variant": "mm32", "ndims": 7, "sml": rng.choice(["true", "true", "true", "false"]),
+            "operands": ops, "bounds_of": [size[d] for d in order]}
+
+
 def gen_access(rng):
     """a dart.access_pattern op with arbitrary strides: exercises every branch of the conversion incl. its errors"""
     variant = rng.choice(["alu", "alu", "xdma_add", "xdma_down", "mm32", "mm8", "gemm32", "gemm8", "simd"])
@@ -899,6 +963,8 @@ class C02(Prop):
             yield gen_region(rng)
         for _ in range(50 if q else 800):
             yield gen_cyclic(rng)
+        for _ in range(36 if q else 600):
+            yield gen_conv(rng)
         if not q:
             yield from self.exhaustive()
 
@@ -1330,6 +1396,13 @@ class C02(Prop):
             d = self.aligned_check(impl_out, model_out)
             if d:
                 return d
+            # the hypothesis of C02_tsl_partial has to be ESTABLISHED by the neighbouring pass: every tiled-strided layout that
+            # the real set-memory-layout chose must satisfy the model's (decidable) alignment clause
+            for i, a in enumerate(model_out.get("aligned") or []):
+                if a is not None and not a["aligned"] and self.compiler_chosen(case, i):
+                    return (f"operand {i}: set-memory-layout{{tiled={case['sml']}}} chose the layout {impl_out['sched']['ops'][i]['lay']}, "
+                            f"which is not aligned with the schedule (pattern {impl_out['sched']['ops'][i]['A']}, bounds "
+                            f"{impl_out['sched']['bounds']}): clause Aligned / AlignedCanon of tsl_linear_of_aligned fails")
         conv = model_out["conv"]
         if impl_out.get("stage") == "verify":
             if "raised" in conv:
@@ -1463,6 +1536,11 @@ class C02(Prop):
             return out
         return self.oracle_one(case, impl_out)
 
+    @staticmethod
+    def compiler_chosen(case, i):
+        """operand i of a `pipe` case gets its layout from the real set-memory-layout pass"""
+        return case.get("kind") == "pipe" and bool(case.get("sml")) and case["operands"][i].get("layout") is None
+
     def oracle_one(self, case, impl_out):
         if "invalid_input" in impl_out or impl_out.get("final") is None:
             return []          # the real code refused the input (exception): an outcome, not a violation
@@ -1502,6 +1580,12 @@ class C02(Prop):
                 if not affine:
                     note += ("the schedule pattern is not an affine map (mod / floordiv term) but was accepted and "
                              "linearised: ")
+                    force_new = True
+                elif not linear and self.compiler_chosen(case, i):
+                    # DC02a is about GIVEN layouts / offsets / biases; a layout that set-memory-layout itself attaches must keep
+                    # every access of the schedule affine (layout resolution silently relies on it)
+                    note += (f"the layout {impl_out['sched']['ops'][i]['lay']} was chosen by set-memory-layout{{tiled={case['sml']}}} "
+                             f"and is not aligned with the schedule (layout o pattern is not linear on the iteration box): ")
                     force_new = True
                 elif not linear:
                     tag = "DC02a"
